@@ -11,6 +11,7 @@ import os
 import re
 import shutil
 import subprocess
+import threading
 import time
 
 from common import (CACHE, REPO, SCRATCH_ROOT, SLOT, VERIF, Undecided, log, read_json,
@@ -193,6 +194,34 @@ def run(snap, obs, use_cache=True):
     return results
 
 
+MEM_CAP_KB = int(float(os.environ.get("VERIF_MEM_GB", "10")) * 1024 * 1024)
+
+
+def _rss_watchdog(stop):
+    """Kill any cbmc process working for this slot whose resident set exceeds the cap: the harness
+    is then reported undecided (tool limit) instead of taking the machine down."""
+    while not stop.wait(5):
+        try:
+            for pid in os.listdir("/proc"):
+                if not pid.isdigit():
+                    continue
+                try:
+                    with open("/proc/%s/cmdline" % pid, "rb") as f:
+                        cl = f.read()
+                    if not cl.startswith(b"cbmc") or TARGET_DIR.encode() not in cl:
+                        continue
+                    with open("/proc/%s/status" % pid) as f:
+                        st = f.read()
+                    m = re.search(r"VmRSS:\s+(\d+) kB", st)
+                    if m and int(m.group(1)) > MEM_CAP_KB:
+                        log("watchdog: cbmc pid %s exceeds %d kB, killing" % (pid, MEM_CAP_KB))
+                        os.kill(int(pid), 9)
+                except (FileNotFoundError, ProcessLookupError, PermissionError):
+                    continue
+        except Exception:
+            pass
+
+
 def _run_pkg(snap, pkg, obs):
     out_json = os.path.join(snap.root, "kani-%s.json" % pkg)
     if os.path.exists(out_json):
@@ -208,12 +237,17 @@ def _run_pkg(snap, pkg, obs):
         cmd += ["--harness", o["full_name"]]
     log("kani: %s (%d harnesses, timeout %ds each)" % (pkg, len(obs), timeout))
     t0 = time.time()
+    stop = threading.Event()
+    wd = threading.Thread(target=_rss_watchdog, args=(stop,), daemon=True)
+    wd.start()
     try:
         p = subprocess.run(cmd, cwd=snap.repo, env=ENV, capture_output=True, text=True,
                            timeout=timeout * max(1, (len(obs) + JOBS - 1) // JOBS) + 1800)
         out = p.stdout + "\n" + p.stderr
     except subprocess.TimeoutExpired as e:
         out = (e.stdout or b"").decode(errors="replace") + "\n" + (e.stderr or b"").decode(errors="replace") + "\n[verif] overall timeout"
+    finally:
+        stop.set()
     wall = time.time() - t0
     logp = os.path.join(CACHE, "logs", "kani-%s-%d.log" % (pkg, int(t0)))
     os.makedirs(os.path.dirname(logp), exist_ok=True)
@@ -272,6 +306,10 @@ def classify(ob, r, stat, err, out, should_panic=False):
     infra = [c for c in failed if (c.get("category") or "") in _INFRA_CATS
              or "unwinding assertion" in (c.get("description") or "")
              or "is not currently supported by Kani" in (c.get("description") or "")]
+    # a built-in check (overflow, bounds ...) failing INSIDE harness code is a defect of the harness, not of /repo
+    harness_bug = [c for c in failed if c not in infra and (c.get("category") or "") != "assertion"
+                   and "verif_kani_" in ((c.get("location") or {}).get("file") or "")]
+    infra += harness_bug
     real = [c for c in failed if c not in infra]
     if should_panic:
         # #[kani::should_panic]: Kani reports success iff at least one panic is reachable and
